@@ -185,6 +185,7 @@ def c10(ctx):
     repair.r_heap_guard(ctx)
     repair.r_arity(ctx, SW + 'repair_dna')
     repair.r_tile_clamp(ctx)
+    repair.r_tile(ctx, step_only=True)      # T7: segments and job lists in step (else IndexError in the assembly)
     exc.r_exc(ctx, SW + 'repair_dna', set(), floor=0)
     exc.r_typed_dispatch(ctx, ctx.closure(SW + 'repair_dna'), floor=1)
     exc.r_typed_index(ctx, SW + 'set_vt')
